@@ -32,7 +32,7 @@ def shards(tier, seed):
 
 
 def required(tier):
-    return {"rows_checked": 3 * 250, "symbols_checked": 100, "prefix_checked": 3 * 32}
+    return {"rows_checked": 3 * 250, "symbols_checked": 100, "prefix_checked": 3 * 32, "redefinitions_refused": 300, "rows_checked_after_refusals": 300}
 
 
 def nf(s):
@@ -258,3 +258,63 @@ def run_shard(spec, rec):
         if w:
             rec.violation("temperature", {"what": f"1 {unit} -> K: {w}", "registry": kind},
                           unit=unit)
+
+    # a registry that REFUSES redefinitions (on_redefinition="raise"): after every refused attempt to give a
+    # standard name, symbol or prefix another value, the registry still carries the standard values - asked
+    # through spellings it has not answered before (compound and prefixed), so that no memo hides its state
+    g = pintload.registry(non_int_type=nit, on_redefinition="raise")
+    GQ = g.Quantity
+    refused = 0
+    for i, (name, expr, si, sym, rowkind, src) in enumerate(T.ROWS):
+        if not name.isidentifier():
+            continue
+        attempts = [f"{name} = 0.5 * ({si})"]
+        if sym and sym.isidentifier() and sym != name:
+            attempts.append(f"c20alt{i} = 0.25 * ({si}) = {sym}")
+        for line in attempts:
+            rec.count("refused_redefinition_attempts")
+            try:
+                g.define(line)
+            except (pint.RedefinitionError, pint.DefinitionSyntaxError):
+                refused += 1
+                rec.count("redefinitions_refused")
+            except Exception as e:  # noqa: BLE001
+                rec.violation("redefinition-attempt", {"line": line, "what": f"raised {type(e).__name__}: {e}"[:200],
+                                                       "registry": kind}, unit=name)
+            else:
+                rec.violation("redefinition-attempt", {"line": line, "what": "accepted although on_redefinition='raise'",
+                                                       "registry": kind}, unit=name)
+    for pline, spelled, want in (("mega- = 1048576 = M-", "megayard", F(10) ** 6 * F(9144, 10000)),
+                                 ("kilo- = 1024 = k-", "kiloinch", F(1000) * F(254, 10000)),
+                                 ("milli- = 0.002 = m-", "millifoot", F(3048, 10000) / 1000)):
+        rec.count("refused_redefinition_attempts")
+        try:
+            g.define(pline)
+        except (pint.RedefinitionError, pint.DefinitionSyntaxError):
+            rec.count("redefinitions_refused")
+        except Exception as e:  # noqa: BLE001
+            rec.violation("redefinition-attempt", {"line": pline, "what": f"raised {type(e).__name__}"[:200],
+                                                   "registry": kind}, unit=spelled)
+        rec.case((kind, spelled, "after-refusal"))
+        try:
+            w = compare(spelled, GQ(one(), spelled).to("meter").magnitude, want, "exact", "factor")
+        except Exception as e:  # noqa: BLE001
+            w = f"raised {type(e).__name__}: {e}"
+        if w:
+            rec.violation("factor-after-refused-redefinition", {"unit": spelled, "what": w, "registry": kind}, unit=spelled)
+    for i, (name, expr, si, sym, rowkind, src) in enumerate(T.ROWS):
+        if not name.isidentifier():
+            continue
+        exp = expected(expr)
+        for spelled in ([f"{name} * hour"] + ([f"{sym} * hour"] if sym and sym.isidentifier() else [])):
+            rec.case((kind, spelled, "after-refusal"), nontrivial=True)
+            rec.count("rows_checked_after_refusals")
+            try:
+                got = GQ(one(), spelled).to(f"({si}) * hour").magnitude
+                w = compare(name, got, exp, rowkind, "factor")
+            except Exception as e:  # noqa: BLE001
+                w = f"raised {type(e).__name__}: {e}"
+            if w:
+                rec.violation("factor-after-refused-redefinition", {"unit": spelled, "si": si, "what": w, "registry": kind},
+                              unit=name)
+
